@@ -554,6 +554,24 @@ func (m *minimiser) test(sc *sim.Scenario) bool {
 	return ok
 }
 
+// goAwaited reports whether every go of a scripted session is followed by a
+// wait for its bestmove before the next go is sent.
+func goAwaited(steps []sim.Step) bool {
+	pending := false
+	for _, st := range steps {
+		switch {
+		case st.Op == "send" && strings.HasPrefix(strings.TrimSpace(st.Line), "go"):
+			if pending {
+				return false
+			}
+			pending = true
+		case st.Op == "wait_best" || st.Op == "fresh_engine":
+			pending = false
+		}
+	}
+	return true
+}
+
 // testMany evaluates candidates in parallel and returns the index of the
 // first (lowest index) that still fails, or -1.
 func (m *minimiser) testMany(cands []*sim.Scenario) int {
@@ -583,6 +601,7 @@ func (m *minimiser) minimise(sc *sim.Scenario, budget time.Duration) *sim.Scenar
 	cur := sc.Clone()
 	// 1. ddmin over steps
 	if len(cur.Steps) > 0 {
+		keepValid := cur.Kind == "uci" && goAwaited(cur.Steps)
 		n := 2
 		for len(cur.Steps) >= 2 && time.Now().Before(deadline) {
 			chunk := (len(cur.Steps) + n - 1) / n
@@ -594,7 +613,22 @@ func (m *minimiser) minimise(sc *sim.Scenario, budget time.Duration) *sim.Scenar
 				}
 				c := cur.Clone()
 				c.Steps = append(append([]sim.Step{}, cur.Steps[:s]...), cur.Steps[e:]...)
+				if keepValid && !goAwaited(c.Steps) {
+					// dropping these steps would send a go while the previous one is
+					// still unanswered: no longer a protocol-valid session
+					continue
+				}
 				cands = append(cands, c)
+			}
+			if len(cands) == 0 {
+				if chunk == 1 {
+					break
+				}
+				n *= 2
+				if n > len(cur.Steps) {
+					n = len(cur.Steps)
+				}
+				continue
 			}
 			if i := m.testMany(cands); i >= 0 {
 				cur = cands[i]
